@@ -95,6 +95,10 @@ func decorate(name string, d mtDeco) string {
 		s += `; title="a;b/c d"`
 	case "two":
 		s += "; charset=iso-8859-1; q=0.8"
+	case "wscharset": // optional whitespace before the ';' (RFC 9110 OWS)
+		s += " ; charset=utf-8"
+	case "tabparam":
+		s += "\t;a=b"
 	case "rfc2231":
 		s += "; charset*=utf-8''%E9"
 	}
